@@ -1,6 +1,7 @@
 package main
 
 import (
+	"runtime/debug"
 	"encoding/json"
 	"fmt"
 	"os"
@@ -128,8 +129,18 @@ func verifyFunction(p *Program, cs *Contracts, fc *FuncContract, fn *ssa.Functio
 	return rep
 }
 
-func runCheck(o CheckOpts) int {
+func runCheck(o CheckOpts) (code int) {
 	start := time.Now()
+	defer func() {
+		// The generator never fails on the tree the contracts were written
+		// for (checked on every run of the unchanged tree); if it fails on a
+		// changed tree, the obligations it used to discharge are not discharged.
+		if r := recover(); r != nil {
+			rp := writeReplay(o, "govc/internal-error", fmt.Sprintf("the VC generator failed on this tree: %v\n%s", r, debug.Stack()), nil)
+			fmt.Printf("VIOLATION property=%s replay=%s obligation=govc/internal-error reason=%q no-failing-input-found\n", o.Prop, rp, fmt.Sprint(r))
+			code = 1
+		}
+	}()
 	if err := loadPrelude(o.Verif); err != nil {
 		fmt.Fprintln(os.Stderr, "prelude:", err)
 		return 2
@@ -237,6 +248,19 @@ func runCheck(o CheckOpts) int {
 		switch ob.Kind {
 		case "post", "lemma":
 			return false
+		case "safety":
+			// Without `opt safety` a function makes no no-panic claim. What is
+			// assumed after such a site (the operand was non-nil, the index in
+			// range) holds on every execution that continues past it, so leaving
+			// the obligation undischarged does not weaken the other proofs
+			// (partial correctness).
+			if len(ob.Tags) == 0 {
+				return false
+			}
+		case "pre":
+			if len(ob.Tags) == 0 && strings.HasSuffix(ob.Label, ".UNREACHABLE") {
+				return false // a call to a function that never returns (panicf): as for safety
+			}
 		}
 		return true
 	}
@@ -271,8 +295,47 @@ func runCheck(o CheckOpts) int {
 			continue
 		}
 	}
+	// A function whose queries every solver rejects (an ill-sorted VC: the code
+	// no longer has the types the contract was written against) is reported
+	// once, as a contract that no longer binds, not once per obligation.
+	illSorted := map[string]string{}
 	for _, ob := range all {
 		res := ob.Result
+		if ob.Cover || res == nil || len(res.All) == 0 || res.Status == "unsat" || res.Status == "sat" {
+			continue
+		}
+		allErr := true
+		for _, st := range res.All {
+			if st != "error" && st != "cancelled" {
+				allErr = false
+			}
+		}
+		if allErr && res.Output != "" && illSorted[ob.Func] == "" {
+			illSorted[ob.Func] = firstLines(res.Output, 2)
+		}
+	}
+	reportedIll := map[string]bool{}
+	for _, ob := range all {
+		res := ob.Result
+		if msg, bad := illSorted[ob.Func]; bad && !ob.Cover && relevant(ob) && res.Status != "unsat" {
+			if !reportedIll[ob.Func] {
+				reportedIll[ob.Func] = true
+				violations++
+				pseudo := &Obligation{Name: ob.Func + "/subset", Func: ob.Func, Kind: "subset", Label: "subset"}
+				rp := writeReplay(o, pseudo.Name, "the verification conditions of this function are ill-sorted (the contract no longer types against the code): "+msg, nil)
+				l := fmt.Sprintf("VIOLATION property=%s replay=%s obligation=%s reason=%q", o.Prop, rp, pseudo.Name, "contract no longer types against the code: "+msg)
+				confirmed := false
+				if adapterFor(o.Verif, ob.Func) != "" {
+					confirmed = runAdapter(o, pseudo, map[string]string{}, rp)
+				}
+				if !confirmed {
+					l += " no-failing-input-found"
+				}
+				lines = append(lines, l)
+			}
+			ev.Obligations++
+			continue
+		}
 		if ob.Cover {
 			ev.Covers++
 			if res.Status == "sat" {
